@@ -16,3 +16,7 @@ func ZZNewHandler(tok *tokencache.Cache, cookie []byte, shutdown func()) http.Ha
 // ZZHealthCheck runs the worker's own token health check loop (it ends the
 // worker through the shutdown function when the token stops answering).
 func ZZHealthCheck(h http.Handler) { h.(*handler).healthCheck() }
+
+// ZZRunWorker is the body of the hidden "worker" command (the command itself
+// ends the process through log.Fatal on error).
+func ZZRunWorker(tokenName string) error { return runWorker(tokenName) }
